@@ -50,6 +50,22 @@ CLAIMS = {
         technique="static analysis: finite-domain abstract evaluation of operator methods against a reference denotation (ast)",
         ref="DESIGN.md §3 C12",
     ),
+    "C03": dict(
+        text=(
+            "Decides the writer/reader agreement clauses of the text protocol: the println templates of both modes are "
+            "extracted from the Java reference wrapper and instantiated into replies; SugarLikeBackend's writers and "
+            "readers are evaluated abstractly against them: (SGR-1) one distinct name per (sort, id) shared by declaration, "
+            "reference and key writers, domains printed lo hi; (OPC-4) every producible operator, natives included, prints "
+            "as (<Sugar grammar name> operands...) with all operands for every producible arity, literals/constants as "
+            "atoms; (SGR-2/3) SAT/UNSAT lines and assignment lines of both modes are parsed into the right variables with "
+            "bool/int types, undecided keys stay None; (SGR-4/5) description = declarations, constraints, key line naming "
+            "exactly the registered keys in the syntax the wrapper parses; (SGR-6) native operators' operand layout and "
+            "length guards; (SGR-7) name -> class -> external entry point. Not decided: the external solvers."
+        ),
+        note="Trusted: CspuzSugarInterface.java as the definition of the wire format; the Sugar grammar name table in sa/rules/c03.py; pycsugar/enigma_csp/cspuz_core share that format.",
+        technique="static analysis: Java println-template extraction + abstract evaluation of printer/parsers (ast, regex)",
+        ref="DESIGN.md §3 C03",
+    ),
 }
 
 NOT_APPLICABLE = {
